@@ -302,4 +302,15 @@ theorem stringExotic_define_refines_ordinary {V} [DecidableEq V] (undef : V) (ba
     ∧ NoCharIdx (strDefine undef base chars k d).1 chars :=
   stringExotic_define_aux undef base chars hb k d hw
 
+/-- [[Delete]] of a String exotic object = OrdinaryDelete on the materialised object (a character index is never
+removed; anything else is deleted from the ordinary part), keeping the invariant. -/
+theorem stringExotic_delete_refines_ordinary {V} (base : Obj V) (chars : List V) (hb : NoCharIdx base chars) (k : Key) :
+    (match lookup (strMat base chars).props k with
+      | none => (strMat base chars, true)
+      | some p => if p.configurable then ({ (strMat base chars) with props := eraseKey (strMat base chars).props k }, true)
+                  else (strMat base chars, false))
+      = (strMat (strDelete base chars k).1 chars, (strDelete base chars k).2)
+    ∧ NoCharIdx (strDelete base chars k).1 chars :=
+  stringExotic_delete_aux base chars hb k
+
 end GojaModel.C04
